@@ -611,7 +611,7 @@ pub fn run(tier: Tier, replay: Option<String>) -> i32 {
             }
         }
     }
-    let batches = tier.pick(4usize, 48);
+    let batches = tier.pick(4usize, 192);
     let per_batch = tier.pick(80usize, 100);
     let outcome = mutate::run_batches(&base.u, &bin, c.seed, 0x1818, batches, per_batch, mutate::ALL_KINDS, replay.as_deref(), |t, _batch| {
         let mut st = Stats::new();
